@@ -47,3 +47,6 @@ ITEMS = [
     # join's index is written BEFORE the source row travels on (a later in-place edit of the row cannot reach what was stored)
     Item('join.indexer', lazy_sym('C11', 'sym_indexer'), [], 'dataflows/processors/join.py::join_aux.indexer'),
 ]
+
+from contracts import reuse as _REUSE   # noqa: E402
+ITEMS.append(Item('second-use', None, [('catalogue', _REUSE.nat_second_use_for('C01'))], 'dataflows/base/flow.py::Flow._chain'))
